@@ -193,42 +193,44 @@ impl W {
             let idx = if pool == Pool::Sapling { "output_index" } else { "action_index" };
             let mut stmt = conn
                 .prepare(&format!(
-                    "SELECT rn.id, t.txid, rn.{idx}, rn.value, t.mined_height, t.min_observed_height, rn.account_id
+                    "SELECT rn.id, t.txid, rn.{idx}, rn.value, t.mined_height, t.min_observed_height, rn.account_id, t.expiry_height
                      FROM {p}_received_notes rn JOIN transactions t ON t.id_tx = rn.transaction_id"
                 ))
                 .unwrap();
-            let rows: Vec<(i64, Vec<u8>, u32, i64, Option<u32>, u32, i64)> = stmt
-                .query_map([], |r| Ok((r.get(0)?, r.get(1)?, r.get(2)?, r.get(3)?, r.get(4)?, r.get(5)?, r.get(6)?)))
+            let rows: Vec<(i64, Vec<u8>, u32, i64, Option<u32>, u32, i64, Option<u32>)> = stmt
+                .query_map([], |r| Ok((r.get(0)?, r.get(1)?, r.get(2)?, r.get(3)?, r.get(4)?, r.get(5)?, r.get(6)?, r.get(7)?)))
                 .unwrap()
                 .map(|r| r.unwrap())
                 .collect();
-            for (id, txid, index, value, mined, minobs, acct_row) in rows {
+            // expiry as the specification names it: -1 unknown (NULL), -100 never (0), else relative height
+            let rel_exp = |e: Option<u32>| match e { None => -1, Some(0) => -100, Some(h) => h as i64 - self.base as i64 };
+            for (id, txid, index, value, mined, minobs, acct_row, exp) in rows {
                 let txid: [u8; 32] = txid.try_into().unwrap();
                 let note = chain.tx_by_id.get(&txid).and_then(|uid| {
                     chain.notes.iter().find(|(_, ni)| ni.tx == *uid && ni.pool == pool && ni.index == index).map(|(n, _)| *n as i64)
                 });
                 let mut sp = conn
                     .prepare(&format!(
-                        "SELECT st.txid, st.mined_height, st.min_observed_height
+                        "SELECT st.txid, st.mined_height, st.min_observed_height, st.expiry_height
                          FROM {p}_received_note_spends rns JOIN transactions st ON st.id_tx = rns.transaction_id
                          WHERE rns.{p}_received_note_id = ?1"
                     ))
                     .unwrap();
-                let mut spenders: Vec<(i64, i64, i64)> = sp
-                    .query_map([id], |r| Ok((r.get::<_, Vec<u8>>(0)?, r.get::<_, Option<u32>>(1)?, r.get::<_, u32>(2)?)))
+                let mut spenders: Vec<(i64, i64, i64, i64)> = sp
+                    .query_map([id], |r| Ok((r.get::<_, Vec<u8>>(0)?, r.get::<_, Option<u32>>(1)?, r.get::<_, u32>(2)?, r.get::<_, Option<u32>>(3)?)))
                     .unwrap()
                     .map(|r| {
-                        let (stxid, smined, sminobs) = r.unwrap();
+                        let (stxid, smined, sminobs, sexp) = r.unwrap();
                         let stxid: [u8; 32] = stxid.try_into().unwrap();
-                        (chain.tx_by_id.get(&stxid).map(|u| *u as i64).unwrap_or(-1), rel(smined), rel(Some(sminobs)))
+                        (chain.tx_by_id.get(&stxid).map(|u| *u as i64).unwrap_or(-1), rel(smined), rel(Some(sminobs)), rel_exp(sexp))
                     })
                     .collect();
                 spenders.sort();
                 notes.push(json!({
                     "n": note.unwrap_or(-1), "pool": pool.code(), "v": value,
                     "acct": self.acct_rows.iter().position(|r| *r == acct_row).map(|i| i as i64 + 1).unwrap_or(-1),
-                    "mined": rel(mined), "minobs": rel(Some(minobs)),
-                    "sp": spenders.iter().map(|(t, m, o)| json!([t, m, o])).collect::<Vec<_>>(),
+                    "mined": rel(mined), "minobs": rel(Some(minobs)), "exp": rel_exp(exp),
+                    "sp": spenders.iter().map(|(t, m, o, e)| json!([t, m, o, e])).collect::<Vec<_>>(),
                 }));
             }
         }
